@@ -504,6 +504,21 @@ func (x *Ex) tr(e ast.Expr, want *Sort) *T {
 					return t
 				}
 			}
+			// &x.f : the address of a field of the object x points to
+			if se, ok := v.X.(*ast.SelectorExpr); ok {
+				base := x.tr(se.X, nil)
+				if base.GoT != nil {
+					if pt, ok := types.Unalias(base.GoT).Underlying().(*types.Pointer); ok {
+						if st := structOf(pt.Elem()); st != nil {
+							if fi := fieldIndex(st, se.Sel.Name); fi >= 0 {
+								fn := "fld$" + ownerName(pt.Elem()) + "." + se.Sel.Name
+								x.enc.decl(fn, fmt.Sprintf("(declare-fun %s (Int) Int)", fn))
+								return mk(sapp(fn, base.S), sRef).withGo(types.NewPointer(st.Field(fi).Type()))
+							}
+						}
+					}
+				}
+			}
 			fail("cannot take the address of this expression in a specification")
 		}
 		fail("unsupported unary operator %s", v.Op)
